@@ -505,9 +505,9 @@ class Case:
         R.violation(vid, **dict(self.d, **kw))
 
 
-def check_call(case, client, server, S, enabled, op, V_, ns, n, moc, pattern, learned=None, touch_switch=True):
+def check_call(case, client, server, S, enabled, op, V_, ns, n, moc, pattern, learned=(), touch_switch=True):
     """Runs the call and checks it.  learned: what earlier calls on this connection could have taught it about this
-    operation (None/True/False) - only used to tell the known defects from everything else.
+    operation (subset of {True, False}) - only used to tell the known defects from everything else.
     Returns what this call could teach (True/False/None = nothing)."""
     if touch_switch:
         server.set_pull(enabled)
@@ -596,12 +596,12 @@ def check_call(case, client, server, S, enabled, op, V_, ns, n, moc, pattern, le
         return teach
     if got_kind != want_kind:
         # the two known ways in which what the connection learned changes the outcome
-        if Sx is None and learned is True and not enabled and out == ('cim', NOT_SUPPORTED) and not fault:
+        if Sx is None and True in learned and not enabled and out == ('cim', NOT_SUPPORTED) and not fault:
             if expect_kind == 'result':
                 case.fail('known:learned-pull-support-fails-call-after-server-stops-pull:' + OPS[op][0],
                           observed=got_kind, fresh_connection='result of %d objects' % len(fresh[1]))
             return teach       # (fresh connection fails as well, differently: not covered by the property)
-        if Sx is None and learned is False and enabled and V_.pull_only and out == ('exc', 'ValueError') \
+        if Sx is None and False in learned and enabled and V_.pull_only and out == ('exc', 'ValueError') \
                 and not fault and expect_kind == 'result':
             case.fail('known:learned-no-pull-rejects-pull-only-args-after-server-gains-pull:' + OPS[op][0],
                       observed=got_kind, fresh_connection='result of %d objects' % len(fresh[1]))
@@ -825,10 +825,10 @@ def run_sequence(scenario, S, steps, n=2, moc=1, ns=DFLT, client=None, srv=None,
     for i, (op, enabled, vname, pat) in enumerate(steps):
         V_ = PLAIN if vname == 'plain' else (COE_F if op == QI else FILT)
         t = check_call(Case(scenario, S, enabled, op, V_, ns, n, moc, pat, history=hist, client_kind=client_kind),
-                       client, srv, S, enabled, op, V_, ns, n, moc, pat, learned=learned.get(op),
+                       client, srv, S, enabled, op, V_, ns, n, moc, pat, learned=learned.get(op, ()),
                        touch_switch=not (first_untouched and i == 0))
-        if learned.get(op) is None and t is not None:
-            learned[op] = t
+        if t is not None:
+            learned[op] = learned.get(op, ()) + (t,)
         hist.append((OPS[op][0], 'server pull %s' % ('on' if enabled else 'off'), V_.name, pat))
 
 
